@@ -62,6 +62,11 @@ def runLoad (cls : String) (chain : List String) (bytes : List Int) : Option (Ex
         if isDateTime cls then Gen.DateTime.from_tuple tv.1 tv.2 else Gen.TimeDelta.from_tuple tv.1 tv.2)
   | _ => none
 
+/-- pickling an array (`__reduce__` = the class applied to `list(iter(self))`): every record is decoded by the `__getitem__`
+    site, the constructor encodes every element again -/
+def arrPickle (records : List (List Int)) : Except PyErr (List (List Int)) :=
+  (records.mapM arrLoad).map (fun elems => elems.map arrStore)
+
 def dispatch : List String → Option String
   | ["elem", "store", a] => a.toInt?.map (fun t => Py.render (arrStore t))
   | "elem" :: "load" :: bs => (bs.mapM (fun (t : String) => t.toInt?)).map (fun l => Py.render (arrLoad l))
